@@ -432,6 +432,12 @@ impl Scen {
         let pre_delta: Vec<BigInt> = (0..self.banks.len()).map(|b| self.delta(b)).collect();
         let pre_store = self.w.accounts.clone();
         let now = self.w.clock_ts;
+        // C03: the user's token account of the bank operated on, before
+        let ub: Option<(usize, usize)> = match act {
+            Act::Deposit { u, b, .. } | Act::Withdraw { u, b, .. } | Act::Borrow { u, b, .. } | Act::Repay { u, b, .. } => Some((*u, *b)),
+            _ => None,
+        };
+        let pre_user_tok: u64 = ub.map(|(u, b)| self.w.token_amount(&self.users[u].toks[b])).unwrap_or(0);
         let r = self.w.exec(&ixn);
         self.hist.push(format!("{:?}->{}", act, match &r { Ok(()) => "ok".to_string(), Err(e) => format!("{}", e) }));
         if self.hist.len() > 40 {
@@ -457,6 +463,47 @@ impl Scen {
                 rep.bump("ix_ok");
                 rep.bump(&format!("ok_{}", format!("{:?}", act).split(' ').next().unwrap_or("?").trim_end_matches('{')));
                 self.after_ok(act, now, &pre_banks, &pre_accts, &pre_delta, rep);
+                // ---- C03: no free value at the level of the WHOLE instruction. The position's net value (deposit shares x deposit
+                // share value - debt shares x debt share value, exact, both taken at the share values the instruction leaves, so
+                // that the interest accrued inside it is not counted as a gain) may rise by at most the tokens that left the
+                // user's token account, and may fall by no less than the tokens that arrived there, up to the allowance of
+                // theorem decrease_bounded_gain (one ulp of each share value per operation).
+                if let Some((u, b)) = ub {
+                    let h = self.banks[b];
+                    let post_bank = self.w.bank(&h.bank);
+                    let (asv, lsv) = (big(fx(post_bank.asset_share_value)), big(fx(post_bank.liability_share_value)));
+                    let val = |a: &MarginfiAccount| -> BigInt {
+                        match a.lending_account.get_balance(&h.bank) {
+                            Some(bal) => big(fx(bal.asset_shares)) * &asv - big(fx(bal.liability_shares)) * &lsv,
+                            None => BigInt::from(0),
+                        }
+                    };
+                    let v0 = val(&pre_accts[u]);
+                    let v1 = val(&self.w.marginfi_account(&self.users[u].acct));
+                    let post_user_tok = self.w.token_amount(&self.users[u].toks[b]);
+                    let scale = big(ONE) * big(ONE);
+                    match act {
+                        Act::Deposit { .. } | Act::Repay { .. } => {
+                            let paid = BigInt::from(pre_user_tok) - BigInt::from(post_user_tok);
+                            if &v1 - &v0 > &paid * &scale {
+                                rep.fail(format!(
+                                    "C03 {:?} raised the position's net value by {} (x2^-96 token) for {} tokens paid in: the user is credited more than was paid; hist {:?}",
+                                    act, &v1 - &v0, paid, self.hist
+                                ));
+                            }
+                        }
+                        _ => {
+                            let got = BigInt::from(post_user_tok) - BigInt::from(pre_user_tok);
+                            let allow = (&asv + &lsv + 1) * big(ONE);
+                            if &got * &scale > &v0 - &v1 + &allow {
+                                rep.fail(format!(
+                                    "C03 {:?} paid out {} tokens while the position's net value fell by only {} (x2^-96 token, allowance {}): more is paid out than is debited; hist {:?}",
+                                    act, got, &v0 - &v1, allow, self.hist
+                                ));
+                            }
+                        }
+                    }
+                }
             }
         }
         Some(r)
